@@ -201,9 +201,16 @@ class StandardFuncs(SnowfakeryPlugin):
             if end_date == start_date:
                 return start_date.astimezone(timezone) if timezone else start_date
 
-            return self._faker_for_dates.date_time_between(
+            value = self._faker_for_dates.date_time_between(
                 start_date, end_date, tzinfo=timezone
             )
+            # Faker draws whole seconds starting at the truncated start:
+            # never return an instant before a start with fractional seconds
+            if timezone:
+                earliest = start_date.astimezone(timezone)
+            else:  # naive result, in UTC
+                earliest = (start_date - start_date.utcoffset()).replace(tzinfo=None)
+            return max(value, earliest)
 
         def i18n_fake(self, locale: str, fake: str):
             # deprecated by still here for backwards compatibility
